@@ -3,6 +3,7 @@ import GroupbyVerif.Model.GenTable
 import GroupbyVerif.Model.GroupBy
 import GroupbyVerif.Model.RowSel
 import GroupbyVerif.Model.Cumulative
+import GroupbyVerif.Model.Rolling
 import GroupbyVerif.Generated.Constants
 
 /-!
@@ -108,6 +109,19 @@ def showOptVals (vs : List (Option Val)) : String :=
 def parseCumOp (s : String) : Option CumOp :=
   match s with
   | "sum" => some .sum | "count" => some .count | "min" => some .min | "max" => some .max
+  | _ => none
+
+def showRCells (vs : List (Option RCell)) : String :=
+  ",".intercalate (vs.map fun
+    | none => "K"
+    | some .null => "_"
+    | some (.num n) => toString n
+    | some (.ratio s c) => s!"{s}/{c}")
+
+def parseRollOp (s : String) : Option RollOp :=
+  match s with
+  | "sum" => some .sum | "mean" => some .mean | "min" => some .min | "max" => some .max
+  | "shift" => some .shift | "diff" => some .diff
   | _ => none
 
 def showInts (vs : List Int) : String := ",".intercalate (vs.map toString)
